@@ -1,7 +1,7 @@
 #!/bin/bash
 # usage: reverify_all.sh <worker-index> <worker-count>  -- re-confirm the kept seeded changes against /repo HEAD: for each
 # seeded/<id> (taken round-robin): clean tree -> demo exits 0; with patch.diff -> builds, 605 tests pass, demo exits non-zero.
-# One scratch copy with a persistent target directory per worker (incremental builds). Prints one RESULT line per seed.
+# ONLY="id1 id2" restricts the run to those seeds. One scratch copy with a persistent target directory per worker (incremental builds). Prints one RESULT line per seed.
 I=$1; N=$2
 W=/tmp/casm-rv-$I
 rm -rf $W; mkdir -p $W
@@ -12,6 +12,7 @@ k=0
 for d in /verif/seeded/*/; do
   id=$(basename $d)
   [ "$id" = "_discarded" ] && continue
+  if [ -n "$ONLY" ]; then case " $ONLY " in *" $id "*) ;; *) continue ;; esac; fi
   k=$((k+1))
   [ $((k % N)) -ne $I ] && continue
   cd $W && git checkout -q -- . && git clean -fdq -e target >/dev/null
